@@ -249,6 +249,7 @@ impl EndpointConfigBuilder {
         r is Ok ==> r->Ok_0.tls@.verifier == InstalledVerifier::Base(*cert_verifier), // @OBL EndpointConfigBuilder::client_config::installs_the_given_verifier [C01,C03,C14] the client TLS configuration checks server certificates with exactly the verifier it is given (anemo's CertVerifier), nothing else
         r is Ok ==> r->Ok_0.tls@.chain == seq![cert] && r->Ok_0.tls@.key == pkcs8_der && key_fits(cert, pkcs8_der), // @OBL EndpointConfigBuilder::client_config::presents_own_certificate [C01] a dialer presents exactly the node's own certificate and signs the handshake with the matching private key
         r is Ok ==> r->Ok_0.tls@.versions =~= only_tls13(), // @OBL EndpointConfigBuilder::client_config::tls13_only [C01] TLS 1.3 only
+        r is Ok ==> r->Ok_0.transport_cfg@ == Some(*transport_config), // @OBL EndpointConfigBuilder::client_config::uses_the_given_transport_configuration [C09] connections this node dials run with the transport parameters it is given (idle timeout, keep-alive, stream limits)
 ''')
     t += C.fn(CFG, 'impl EndpointConfigBuilder :: fn server_config', 'EndpointConfigBuilder::server_config', ['C01'], ret='r', rewrites=tyrw, inserts=[('X6', 'let mut server = quinn::ServerConfig::with_crypto(', 'assert(server_crypto.tls@.versions[0] == TlsVersion::TLS13); /* proof hint: TLS 1.3 is offered */\n        ', 'before')],
               transforms=[name_closure_params, for_tuple_pattern('(*key).of == pkcs8_der, forall|n: Seq<char>| server_cert_resolver.by_name@.contains_key(n) ==> server_cert_resolver.by_name@[n].1 == pkcs8_der,')],
@@ -256,6 +257,7 @@ impl EndpointConfigBuilder {
     ensures
         r is Ok ==> r->Ok_0.tls@.client_verifier == *cert_verifier, // @OBL EndpointConfigBuilder::server_config::installs_the_given_client_verifier [C01,C14] the server TLS configuration verifies the certificate of EVERY dialer with exactly the verifier it is given (client authentication through anemo's CertVerifier, which makes it mandatory)
         r is Ok ==> r->Ok_0.tls@.versions =~= only_tls13(), // @OBL EndpointConfigBuilder::server_config::tls13_only [C01] TLS 1.3 only
+        r is Ok ==> r->Ok_0.transport == transport_config, // @OBL EndpointConfigBuilder::server_config::uses_the_given_transport_configuration [C09] connections this node accepts run with the transport parameters it is given
         r is Ok ==> !r->Ok_0.tls@.catch_all, // @OBL EndpointConfigBuilder::server_config::certificate_only_for_a_known_name [C14] the listener presents a certificate only when the name in the TLS hello is one it was configured with (certificates are resolved by name; there is no certificate that is presented for any name)
         r is Ok ==> (forall|n: Seq<char>| r->Ok_0.tls@.certs.contains_key(n) ==> r->Ok_0.tls@.certs[n].1 == pkcs8_der), // @OBL EndpointConfigBuilder::server_config::one_key [C01] every certificate the listener can present is paired with the node's own private key
 ''')
@@ -269,6 +271,7 @@ impl EndpointConfigBuilder {
         r is Ok ==> r->Ok_0.peer_id == PeerId(public_of(self.private_key->Some_0)), // @OBL EndpointConfigBuilder::build::own_identity_is_own_key [C01] the node's own PeerId is the public key of the private key it was configured with
         r is Ok ==> r->Ok_0.client_certificate == self_signed_cert(self.private_key->Some_0, self.server_name->Some_0@) && r->Ok_0.pkcs8_der == pkcs8_of(self.private_key->Some_0), // @OBL EndpointConfigBuilder::build::own_certificate_from_own_key [C01,C14] the certificate it presents is self-signed with that key for the network's server name, and the handshake key is that key
         r is Ok ==> r->Ok_0.server_name@ == self.server_name->Some_0@, // @OBL EndpointConfigBuilder::build::server_name [C01,C03,C14] dials ask for the configured network name
+        r is Ok ==> r->Ok_0.quinn_client_config.transport_cfg@ == Some(*r->Ok_0.transport_config) && r->Ok_0.quinn_server_config.transport == r->Ok_0.transport_config, // @OBL EndpointConfigBuilder::build::one_transport_configuration_for_every_connection [C09] dialed, accepted and pinned connections all run with the ONE transport configuration the endpoint stores (so the idle timeout that bounds how long a silent loss goes unnoticed is the configured one in every case)
         r is Ok ==> r->Ok_0.quinn_client_config.tls@.verifier is Base && r->Ok_0.quinn_client_config.tls@.verifier->Base_0.server_names@.len() == 1
             && r->Ok_0.quinn_client_config.tls@.verifier->Base_0.server_names@[0]@ == self.server_name->Some_0@, // @OBL EndpointConfigBuilder::build::client_verifier_is_cert_verifier [C01,C03,C14] an unpinned dial verifies the answering certificate with anemo's CertVerifier for the network name
         r is Ok ==> (forall|i: int| 0 <= i < r->Ok_0.quinn_server_config.tls@.client_verifier.server_names@.len() ==>
@@ -300,6 +303,7 @@ impl EndpointConfigBuilder {
     ensures
         r.tls@.verifier is Pinned && r.tls@.verifier->Pinned_1 == peer_id && r.tls@.verifier->Pinned_0.server_names@.len() == 1, // @OBL EndpointConfig::client_config_with_expected_server_identity::pins_exactly_the_given_identity [C03,C01] the configuration built for a dial that names an identity verifies the answering certificate with the PINNING verifier for exactly that identity (and the network name)
         r.tls@.chain == seq![self.client_certificate] && r.tls@.key == self.pkcs8_der, // @OBL EndpointConfig::client_config_with_expected_server_identity::presents_own_certificate [C01] and presents the node's own certificate and key
+        r.transport_cfg@ == Some(*self.transport_config), // @OBL EndpointConfig::client_config_with_expected_server_identity::keeps_the_transport_configuration [C09,C03] a dial that names an identity runs with the node's configured transport parameters (idle timeout, keep-alive, stream limits) like every other connection: a lost peer is noticed within the configured idle timeout whatever way the connection was made
 ''')
     t += '}\n'
     # ---- endpoint.rs: which configuration a dial uses -------------------------------------------------------------------
